@@ -1327,20 +1327,31 @@ class SegmentationImage:
         polygons = list(shapes(self.data.astype('int32'), connectivity=8))
         polygons.sort(key=lambda x: x[1])  # sort in label order
 
-        # do not include polygons for background (label = 0)
-        return polygons[1:]
+        # do not include polygons for background (label = 0); there may
+        # be zero, one, or several background regions
+        return [polygon for polygon in polygons if polygon[1] != 0]
 
     @lazyproperty
     def polygons(self):
         """
         A list of `Shapely <https://shapely.readthedocs.io/en/stable/>`_
         polygons representing each source segment.
+
+        The list has one item per label, in the order of the ``labels``
+        attribute. The item is a Shapely ``MultiPolygon`` if the label
+        is not pixel connected.
         """
         from shapely import transform
-        from shapely.geometry import shape
+        from shapely.geometry import MultiPolygon, shape
 
-        polygons = [shape(geo_poly[0]) for geo_poly in self._geo_polygons
-                    if geo_poly[1] != 0]
+        # a label that is not pixel connected has one polygon for each
+        # of its regions; they are combined into a MultiPolygon so that
+        # there is exactly one item per label
+        label_polygons = {}
+        for geo_poly, label in self._geo_polygons:
+            label_polygons.setdefault(label, []).append(shape(geo_poly))
+        polygons = [polys[0] if len(polys) == 1 else MultiPolygon(polys)
+                    for polys in label_polygons.values()]
 
         # shift the vertices so that the (0, 0) origin is at the
         # center of the lower-left pixel
@@ -1373,7 +1384,8 @@ class SegmentationImage:
         from regions import Regions
 
         return Regions([_shapely_polygon_to_region(poly)
-                        for poly in self.polygons])
+                        for polygon in self.polygons
+                        for poly in getattr(polygon, 'geoms', [polygon])])
 
     def to_patches(self, *, origin=(0, 0), scale=1.0, **kwargs):
         """
@@ -1410,9 +1422,12 @@ class SegmentationImage:
         patch_kwargs.update(kwargs)
 
         patches = []
-        for poly in self.polygons:
-            xy = self._get_polygon_vertices(poly, origin=origin, scale=scale)
-            patches.append(Polygon(xy, **patch_kwargs))
+        for polygon in self.polygons:
+            # one patch for each region of a non-connected label
+            for poly in getattr(polygon, 'geoms', [polygon]):
+                xy = self._get_polygon_vertices(poly, origin=origin,
+                                                scale=scale)
+                patches.append(Polygon(xy, **patch_kwargs))
 
         return patches
 
